@@ -238,6 +238,8 @@ type connResult struct {
 //	hcl=1           Response.Header.Set("Connection","close")
 //	ter=0|1         answer through TimeoutErrorWithResponse(resp) (1: resp.SetConnectionClose())
 //	stream=DECL:ACTUAL   SetBodyStream(reader of ACTUAL bytes, DECL)   (DECL=-1 unknown size)
+//	srd=p|e|1|z     the stream's reader: plain Read loop / final bytes together with io.EOF / one byte per Read /
+//	                a (0, nil) Read before every piece   (default: *bytes.Reader, which is an io.WriterTo)
 //	sw=N            SetBodyStreamWriter writing N bytes in 3 pieces
 //	te=1            ctx.TimeoutError("timed out!") then keep mutating
 //	uv=1            set a user value (must not be visible to the next request)
@@ -413,7 +415,13 @@ func newConnServer(cfg connCfg) *connServer {
 			ds, as, _ := strings.Cut(string(v), ":")
 			decl, _ := strconv.Atoi(ds)
 			act, _ := strconv.Atoi(as)
-			ctx.SetBodyStream(bytes.NewReader(bytes.Repeat([]byte("s"), act)), decl)
+			data := bytes.Repeat([]byte("s"), act)
+			switch string(q.Peek("srd")) {
+			case "":
+				ctx.SetBodyStream(bytes.NewReader(data), decl) // io.WriterTo fast path
+			default:
+				ctx.SetBodyStream(&modeReader{data: data, mode: string(q.Peek("srd"))}, decl)
+			}
 		}
 		if n := q.GetUintOrZero("sw"); n > 0 {
 			ctx.SetBodyStreamWriter(func(w *bufio.Writer) {
@@ -586,4 +594,37 @@ func trunc(b []byte, n int) []byte {
 		return append(append([]byte(nil), b[:n]...), "..."...)
 	}
 	return b
+}
+
+// modeReader is an io.Reader (not an io.WriterTo) with selectable, contract-conforming behaviour.
+type modeReader struct {
+	data []byte
+	mode string // "p" plain, "e" final bytes together with io.EOF, "1" one byte per Read, "z" a (0, nil) Read before every piece
+	zero bool
+}
+
+func (m *modeReader) Read(p []byte) (int, error) {
+	if len(p) == 0 {
+		return 0, nil
+	}
+	if len(m.data) == 0 {
+		return 0, io.EOF
+	}
+	if m.mode == "z" && !m.zero {
+		m.zero = true
+		return 0, nil
+	}
+	m.zero = false
+	n := len(p)
+	if m.mode == "1" {
+		n = 1
+	} else if n > 1000 {
+		n = 1000
+	}
+	n = copy(p[:n], m.data)
+	m.data = m.data[n:]
+	if len(m.data) == 0 && m.mode == "e" {
+		return n, io.EOF
+	}
+	return n, nil
 }
